@@ -8,14 +8,63 @@ use crate::runner::{CaseStats, PropDef, Tier};
 use crate::tol;
 use proptest::strategy::BoxedStrategy;
 
-fn strategy(_tier: Tier) -> BoxedStrategy<Case> {
-    gen::case_strategy(GenOpts { max_n: 40, ..GenOpts::default() })
+fn strategy(tier: Tier) -> BoxedStrategy<Case> {
+    use proptest::prelude::*;
+    let reference = gen::case_strategy(GenOpts { max_n: 40, ..GenOpts::default() });
+    // metamorphic stream (no reference model, so larger inputs): aux_i = [1, relabelling seed,
+    // reflection bits, axis permutation, power of two]
+    let meta = (gen::case_strategy(GenOpts { max_n: tier.pick(300, 1200), big_n_weight: 3, ..GenOpts::default() }), any::<u32>(), 0u32..8, 0u32..6, -40i32..=40, 0u8..4)
+        .prop_map(|(mut c, seed, flips, axes, k, which)| {
+            // a quarter of the cases apply a single kind of transform (easier to read when it
+            // fails), the rest combine all four
+            let (seed, flips, axes, k) = match which {
+                0 => match seed % 4 {
+                    0 => (seed | 3, 0, 0, 0),
+                    1 => (0, flips.max(1), 0, 0),
+                    2 => (0, 0, axes.max(1), 0),
+                    _ => (0, 0, 0, if k == 0 { 7 } else { k }),
+                },
+                _ => (seed, flips, axes, k),
+            };
+            c.aux_i = vec![1, seed as i64, flips as i64, axes as i64, k as i64];
+            c
+        });
+    prop_oneof![3 => reference, 1 => meta].boxed()
+}
+
+/// Metamorphic part of C01 (see `meta.rs`): relabelling, reflection, axis permutation, scaling.
+fn metamorphic(c: &Case, cs: &mut CaseStats) -> Result<(), String> {
+    let t = crate::meta::Transform::from_codes(c, c.aux_i[1] as u64, c.aux_i[2] as u32, c.aux_i[3] as u32, c.aux_i[4] as i32);
+    cs.label("metamorphic");
+    if !t.perm.iter().enumerate().all(|(i, p)| i == *p) {
+        cs.label("meta:relabel");
+    }
+    if t.flip.iter().any(|f| *f) {
+        cs.label("meta:reflect");
+    }
+    if t.axes != [0, 1, 2] {
+        cs.label("meta:axes");
+    }
+    if t.scale_pow != 0 {
+        cs.label("meta:scale");
+    }
+    if c.n() > 40 {
+        cs.label("meta:n>40");
+    }
+    let compared = crate::meta::compare(c, &t, cs)?;
+    if c.n() >= 3 && compared > 0 && !t.is_identity() {
+        cs.nt();
+    }
+    Ok(())
 }
 
 pub fn check(c: &Case, cs: &mut CaseStats) -> Result<(), String> {
     gen::classify(c, cs);
     if !gen::is_valid(c) {
         return Err("INFRA: generator produced an invalid case".into());
+    }
+    if c.aux_i.first() == Some(&1) && c.aux_i.len() >= 5 {
+        return metamorphic(c, cs);
     }
     let n = c.n();
     let vi = obs::integrator(c, None);
@@ -109,12 +158,12 @@ pub fn check(c: &Case, cs: &mut CaseStats) -> Result<(), String> {
 pub fn def() -> PropDef {
     PropDef {
         id: "C01",
-        rule: "cases: all point-set families (uniform, clusters, exact/perturbed lattices, wall points, co-spherical, coplanar, dyadic, shared-coordinate, n=1/2), dims 1-3, periodic or not, n <= 40, aspect to 2^14, offsets to 2^30; oracle: brute-force cell (box clipped by the bisector of every site, 5^d images when periodic, no search structure, no security radius, local coordinates), compared per cell on volume, centroid, the complete face map keyed by (neighbour | wall, integer shift) -> area, centroid in both directions (missing / spurious above the 1e-9 threshold), every library vertex nearer to its generator than to any site by direct distance comparison, every reference vertex inside all library half spaces; tolerance per quantity = 8 x its measured variation when all sites are perturbed by the library's input rounding (3 replicas) + 2^14 u L kappa floor. non-trivial: n >= 3, some cell has a non-negligible non-wall face and the security-radius termination really stopped before some site for at least one cell; distinct by case hash.",
+        rule: "cases: all point-set families (uniform, clusters, exact/perturbed lattices, wall points, co-spherical, coplanar, dyadic, shared-coordinate, n=1/2), dims 1-3, periodic or not, n <= 40, aspect to 2^14, offsets to 2^30; oracle: brute-force cell (box clipped by the bisector of every site, 5^d images when periodic, no search structure, no security radius, local coordinates), compared per cell on volume, centroid, the complete face map keyed by (neighbour | wall, integer shift) -> area, centroid in both directions (missing / spurious above the 1e-9 threshold), every library vertex nearer to its generator than to any site by direct distance comparison, every reference vertex inside all library half spaces; tolerance per quantity = 8 x its measured variation when all sites are perturbed by the library's input rounding (3 replicas) + 2^14 u L kappa floor. non-trivial: n >= 3, some cell has a non-negligible non-wall face and the security-radius termination really stopped before some site for at least one cell; distinct by case hash. Second stream (1 case in 4, n to 300 quick / 1200 thorough, no reference model): metamorphic relations that follow from the definition - the tessellation of the relabelled (identity / reversal / pseudo-random shuffle), reflected (any subset of the active axes, about the centre of the box), axis-permuted and power-of-two-scaled (2^-40..2^40, exact) input is built as well and every cell is compared through the transform: volume, centroid, and the face map keyed by (neighbour, integer period shift | wall) with areas in both directions, tolerances from the conditioning of both builds (cellinfo); non-trivial there: n >= 3, a non-identity transform and >= 1 non-wall face compared.",
         strategy,
         check,
-        cases: |t| t.pick(4000, 150_000),
+        cases: |t| t.pick(5400, 200_000),
         profiles: &["release"],
-        required: &["dim1", "dim2", "dim3", "periodic", "reflective", "early-termination", "far-neighbour-face", "aspect>=64"],
+        required: &["dim1", "dim2", "dim3", "periodic", "reflective", "early-termination", "far-neighbour-face", "aspect>=64", "metamorphic", "meta:relabel", "meta:reflect", "meta:axes", "meta:scale", "meta:n>40"],
         fixed: None,
         assumptions: &["valid input (closed box, separation >= 2^-44 * coordinate scale)", "faces/vertices of cells that contain a vertex whose three plane normals are coplanar to 1e-6 are exempt (known finding 'ill-conditioned'); their volume and centroid are still compared", "the reference model is validated by `mvv selftest` (Monte-Carlo membership against direct distance comparison)"],
     }
